@@ -23,8 +23,10 @@ def short_tupleu(t, d, fam, depth=0) -> bool:
         return any(short_tupleu(t.args[0], x, fam, depth + 1) for x in d)
     if k == "tuplefix" and isinstance(d, (list, tuple, str)):
         return any(short_tupleu(a, x, fam, depth + 1) for a, x in zip(t.args, d))
-    if k in ("dict", "mapping", "ordereddict") and isinstance(d, dict):
+    if k in ("dict", "mapping", "ordereddict", "defaultdict", "mappingproxy") and isinstance(d, dict):
         return any(short_tupleu(t.args[1], x, fam, depth + 1) for x in d.values())
+    if k == "chainmap" and isinstance(d, (list, tuple)):
+        return any(isinstance(m, dict) and any(short_tupleu(t.args[1], x, fam, depth + 1) for x in m.values()) for m in d)
     if k == "opt":
         return d is not None and short_tupleu(t.args[0], d, fam, depth + 1)
     if k in ("data", "td") and isinstance(d, dict):
@@ -34,6 +36,154 @@ def short_tupleu(t, d, fam, depth=0) -> bool:
     return False
 
 
+def k7_part(ctx: vlib.Ctx):
+    """kernel K7 (arg_indexes loop of pack_tuple/unpack_tuple): theorems + validation of the translation by
+    running the very loop of the source on abstract argument lists"""
+    import ast
+    ctx.theorems("props/C03_tuple_kernel.vo", ["C03_tuple_indexes", "C03_tuple_short_input_refuted"], kernels=["K7"])
+    if not ctx.kernel_report.get("K7", {}).get("ok"):
+        return
+    src = open(vlib.REPO + "/mashumaro/core/meta/types/unpack.py").read()
+    fn = next(n for n in ast.parse(src).body if isinstance(n, ast.FunctionDef) and n.name == "unpack_tuple")
+    loop = next(n for n in ast.walk(fn) if isinstance(n, ast.For) and ast.unparse(n.iter) == "enumerate(args)")
+    code = compile(ast.Module(body=[loop], type_ignores=[]), "<k7-loop>", "exec")
+    cases, flagsets = [], []
+    r = ctx.rng
+    for _ in range(ctx.budget(300, 3000)):
+        n = r.randrange(0, 7)
+        flags = [False] * n
+        for _ in range(r.choice([0, 1, 1, 1, 2])):
+            if n:
+                flags[r.randrange(n)] = True
+        env = {"args": ["U" if f else "P" for f in flags], "is_unpack": lambda a: a == "U", "arg_indexes": [], "unpack_idx": None,
+               "type_name": lambda t: "T", "spec": type("S", (), {"type": None})()}
+        try:
+            exec(code, env)
+            exp = "(Some [" + "; ".join(
+                (f"ASl {vlib.coq_z(a[0])} " + ("None" if a[1] is None else f"(Some {vlib.coq_z(a[1])})")) if isinstance(a, tuple) else f"AI {vlib.coq_z(a)}"
+                for a in env["arg_indexes"]) + "])"
+        except TypeError:
+            exp = "None"
+        cases.append("([" + "; ".join("true" if f else "false" for f in flags) + "], " + exp + ")")
+        flagsets.append(flags)
+    defs = ("Definition aidx_eqb (a b: aidx) : bool := match a, b with AI x, AI y => Z.eqb x y | ASl x None, ASl y None => Z.eqb x y "
+            "| ASl x (Some p), ASl y (Some q) => Z.eqb x y && Z.eqb p q | _, _ => false end.\n"
+            "Fixpoint leq (a b: list aidx) : bool := match a, b with [], [] => true | x :: r, y :: s => aidx_eqb x y && leq r s | _, _ => false end.\n")
+    okf = "fun c => match arg_indexes (fst c), snd c with Some a, Some b => leq a b | None, None => true | _, _ => false end"
+    bad, log = vlib.coq_bad_idx("c03_k7", "TupleIdx", "From VerifGen Require Import K7.", defs, cases, okf,
+                                "list bool * option (list aidx)", shard=1500, needs=["gen/K7.vo", "theories/TupleIdx.vo"])
+    if bad is None:
+        ctx.correspondence("K7-translation-vs-source-loop", len(cases), -1, log)
+        ctx.not_shown("translation validation K7", log)
+    else:
+        ctx.correspondence("K7-translation-vs-source-loop", len(cases), len(bad), str([flagsets[i] for i in bad[:5]]))
+        if bad:
+            ctx.not_shown("translation validation K7", str([flagsets[i] for i in bad[:5]]))
+
+
+def probe(ctx, t, fam, ns, dec, d, nontrivial):
+    ctx.count((t.key(), repr(d)), nontrivial=nontrivial)
+    d0 = copy.deepcopy(d)
+    try:
+        exp = ("ok", ref.ref_decode(t, d0, fam, ns))
+    except ref.RefError as e:
+        exp = ("undef", str(e))
+    try:
+        got = ("ok", dec.decode(d))
+    except Exception as e:
+        got = ("exc", type(e).__name__)
+    what = None
+    if got[0] == "ok":
+        if exp[0] != "ok":
+            what = f"decode returned {gen.py_src(got[1])[:160]} but the reference is undefined ({exp[1]})"
+        elif not gen.same(got[1], exp[1]):
+            what = f"decode returned {gen.py_src(got[1])[:160]}, reference {gen.py_src(exp[1])[:160]}"
+        elif not ref.conforms(t, got[1], fam, ns):
+            what = f"result {gen.py_src(got[1])[:160]} does not conform to the annotation (look-alike class)"
+    elif exp[0] == "ok":
+        what = f"decode raised {got[1]} although the reference defines {gen.py_src(exp[1])[:160]}"
+    ctx.hist("oracle_outcomes", got[0] + "/" + exp[0])
+    if what:
+        ctx.fail(f"{gen.py_ann(t)} <- {gen.py_src(d0)[:160]}: {what}",
+                 {"entry": "codec_decode", "source": fam.source(), "type": gen.py_ann(t), "input_src": gen.py_src(d0),
+                  "observed": ("ok:" + gen.py_src(got[1])) if got[0] == "ok" else "exc:" + got[1],
+                  "expected": ("ok:" + gen.py_src(exp[1])) if exp[0] == "ok" else "exc:*"},
+                 {"kind": "unpacked-tuple-short-input"} if (got[0] == "ok" and exp[0] != "ok" and "too few items" in exp[1]
+                                                            and short_tupleu(t, d0, fam)) else {"kind": "decode-ref"})
+
+def truncations(w, limit=12):
+    """every variant of a wire value in which ONE nested list is cut short (the outer one included)"""
+    out = []
+
+    def go(x, rebuild):
+        if len(out) >= limit:
+            return
+        if isinstance(x, list):
+            for n in range(len(x)):
+                out.append(rebuild(x[:n]))
+            for i, y in enumerate(x):
+                go(y, lambda z, i=i, x=x: rebuild(x[:i] + [z] + x[i + 1:]))
+        elif isinstance(x, dict):
+            for k2, y in x.items():
+                go(y, lambda z, k2=k2, x=x: rebuild({**x, k2: z}))
+    go(w, lambda z: z)
+    return out[:limit]
+
+
+def indexed_part(ctx):
+    """positions decoded by indexing (NamedTuple items with and without defaults, fixed tuples, nested NamedTuples) against inputs in
+    which exactly one nested sequence is too short: the only legal outcomes are the documented trailing defaults of THAT NamedTuple or an error"""
+    from mashumaro.codecs.basic import BasicDecoder, BasicEncoder
+    rng = ctx.rng
+    for i in range(ctx.budget(60, 400)):
+        sg = gen.SchemaGen(rng, gen.GenOpts(depth=2, named=True))
+        sg.tag = f"ix{i}_"
+
+        def item(d):
+            c = rng.random()
+            if c < 0.3 or d <= 0:
+                return gen.T(rng.choice(["int", "str", "bool", "float"]))
+            if c < 0.65:
+                return gen.T("tuplefix", [gen.T(rng.choice(["int", "str", "bool"])) for _ in range(rng.randrange(1, 4))])
+            if c < 0.85:
+                return nt(d - 1)
+            return gen.T("opt", [item(d - 1)])
+
+        def nt(d):
+            spec = gen.ClassSpec("nt", sg.fresh("N"))
+            for k2 in range(rng.randrange(1, 5)):
+                spec.fields.append(gen.FieldSpec(f"a{k2}", item(d)))
+            for f in reversed(spec.fields):
+                dv = sg.simple_default(f.ty) if rng.random() < 0.75 else None
+                if dv is None or (isinstance(dv[0], str) and dv[0].startswith("factory:")):
+                    break
+                f.default, f.default_src = dv
+            sg.fam.classes.append(spec)
+            return gen.T("nt", name=spec.name)
+        t = nt(2) if rng.random() < 0.8 else gen.T("tuplefix", [item(2) for _ in range(rng.randrange(1, 4))])
+        fam = sg.fam
+        ns = fam.build()
+        ty = gen.resolve(t, ns)
+        try:
+            dec, enc = BasicDecoder(ty), BasicEncoder(ty)
+        except Exception as e:
+            ctx.fail(f"codec for {gen.py_ann(t)} cannot be built: {type(e).__name__}: {e}",
+                     {"entry": "codec_build", "source": fam.source(), "type": gen.py_ann(t), "expected": "ok"}, {"kind": "decoder-build"})
+            fam.dispose()
+            continue
+        vg = gen.ValueGen(rng, fam)
+        try:
+            w = enc.encode(vg.value(t))
+        except Exception:
+            fam.dispose()
+            continue
+        ctx.hist("indexed_root", t.kind)
+        probe(ctx, t, fam, ns, dec, w, False)
+        for d in truncations(w):
+            probe(ctx, t, fam, ns, dec, d, True)
+        fam.dispose()
+
+
 def run(ctx: vlib.Ctx):
     from mashumaro.codecs.basic import BasicDecoder, BasicEncoder
 
@@ -41,10 +191,12 @@ def run(ctx: vlib.Ctx):
                             "(one position of a valid wire value replaced by a wrong JSON type / removed / null / extra key / surplus item, or pure junk); "
                             "distinct = (type tree, input) pairs; non-trivial = input is not the unmodified encoder output")
     ctx.theorems("props/C03_unpack.vo", ["C03_unpack_ref", "C03_field_unpacker", "C03_well_typed"])
+    ctx.trusted += ["tools/kernels/k7_tuple_indexes.py (translator of the arg_indexes loop; validated each run against the source loop executed on abstract argument lists)"]
     ctx.trusted += ["TyModel.v (cu/uk: hand-written model of unpack.py registry order incl. iteration of str/dict inputs, tuple surplus, field lookup) "
                     "tied by vm_compute correspondence; stdlib constructors (int/float/str, fromisoformat, UUID, Decimal, ..., decodebytes, Enum()) are oracle tables"]
     ctx.assumptions += ["conformance of results (exact classes) and NamedTuple/TypedDict/abstract collections are decided by the oracle only"]
 
+    k7_part(ctx)
     cases, bad, log = tycorr.run(ctx, "c03_ty", ctx.budget(60, 400), 2, depth=3, foreign=4)
     hits = tyoracle.report_corr(ctx, "TyModel.uk/ref_dec vs BasicDecoder.decode", cases, bad, log, want="dec")
 
@@ -66,35 +218,9 @@ def run(ctx: vlib.Ctx):
                 continue
             inputs = [w] + [tycorr.corrupt(w, ctx.rng) for _ in range(3)]
             for j, d in enumerate(inputs):
-                ctx.count((t.key(), repr(d)), nontrivial=j > 0)
-                d0 = copy.deepcopy(d)
-                try:
-                    exp = ("ok", ref.ref_decode(t, d0, fam, ns))
-                except ref.RefError as e:
-                    exp = ("undef", str(e))
-                try:
-                    got = ("ok", dec.decode(d))
-                except Exception as e:
-                    got = ("exc", type(e).__name__)
-                what = None
-                if got[0] == "ok":
-                    if exp[0] != "ok":
-                        what = f"decode returned {gen.py_src(got[1])[:160]} but the reference is undefined ({exp[1]})"
-                    elif not gen.same(got[1], exp[1]):
-                        what = f"decode returned {gen.py_src(got[1])[:160]}, reference {gen.py_src(exp[1])[:160]}"
-                    elif not ref.conforms(t, got[1], fam, ns):
-                        what = f"result {gen.py_src(got[1])[:160]} does not conform to the annotation (look-alike class)"
-                elif exp[0] == "ok":
-                    what = f"decode raised {got[1]} although the reference defines {gen.py_src(exp[1])[:160]}"
-                ctx.hist("oracle_outcomes", got[0] + "/" + exp[0])
-                if what:
-                    ctx.fail(f"{gen.py_ann(t)} <- {gen.py_src(d0)[:160]}: {what}",
-                             {"entry": "codec_decode", "source": fam.source(), "type": gen.py_ann(t), "input_src": gen.py_src(d0),
-                              "observed": ("ok:" + gen.py_src(got[1])) if got[0] == "ok" else "exc:" + got[1],
-                              "expected": ("ok:" + gen.py_src(exp[1])) if exp[0] == "ok" else "exc:*"},
-                             {"kind": "unpacked-tuple-short-input"} if (got[0] == "ok" and exp[0] != "ok" and "too few items" in exp[1]
-                                                                        and short_tupleu(t, d0, fam)) else {"kind": "decode-ref"})
+                probe(ctx, t, fam, ns, dec, d, j > 0)
         fam.dispose()
+    indexed_part(ctx)
 
 
 def replay(rep: dict) -> int:
